@@ -228,6 +228,12 @@ class SwinTWrapper(nn.Module):
             self.arch = arch_types["tiny"]
 
         self.up_blocks = len(self.arch["depths"]) - 1
+        # Do not up-sample past `output_stride`: the head layers are sized for the last
+        # decoder block, which must sit at the minimum output stride.
+        stride = stem_patch_stride
+        while self.up_blocks > 1 and stride < output_stride:
+            self.up_blocks -= 1
+            stride *= 2
         self.convs_per_block = convs_per_block
         self.stem_patch_stride = stem_patch_stride
         self.down_blocks = len(self.arch["depths"]) - 1
